@@ -390,6 +390,16 @@ func (s *server) connect(f frag) *client {
 		s.wg.Add(1)
 		go func() {
 			defer s.wg.Done()
+			defer func() {
+				// a panic on the server's connection goroutine ends the
+				// production server process
+				if e := recover(); e != nil {
+					fatalMu.Lock()
+					serverFatals = append(serverFatals, "panic in server connection goroutine: "+errString(e))
+					fatalMu.Unlock()
+					rs.Close()
+				}
+			}()
 			dbms.VerifServe(s.local, rs)
 		}()
 		tc, err := dbms.VerifClientHandshake(rc)
